@@ -71,7 +71,7 @@ def fill_case(rng, c, sim):
         c["tau"] = str(rng.choice(R))
         c["gamma"] = str(rng.choice(R + [F(0)]))
         c["k"] = rng.randint(1, 2)
-        sts = ["S", "I", "R"] if fam in ("sir", "threshold", "twohop", "sei") else ["S", "I"]
+        sts = ["S", "I", "R"] if fam in ("sir", "threshold", "twohop", "sei", "lazy") else ["S", "I"]
         c["statuses"] = sts
         c["IC"] = [rng.choice(["S", "S", "I"] + (["R"] if "R" in sts and rng.random() < 0.3 else [])) for _ in range(n)]
         c["return_statuses"] = sts if rng.random() < 0.7 else sts[: rng.randint(1, len(sts))]
@@ -158,6 +158,8 @@ def call(case, G, lab, tr, full):
         def transition_choice(G_, node, status, parameters):
             s = status[node]
             if s == "S":
+                if fam == "lazy" and ninf(G_, node, status) < k:
+                    return "S"           # null event: the chooser answers the current status
                 return "I"
             if s == "I":
                 return "S" if fam == "sis" else "R"
